@@ -339,11 +339,14 @@ class DWorld:
             # a seeded non-empty sub-list of the ready operations (bits of arg)
             sub = [x for k, x in enumerate(ready) if (arg >> k) & 1] or [ready[arg % len(ready)]]
             return self.call_query(name, [self.op_of(j, p) for j, p in sub]), m.min_start(sub), sub
-        j, p = ready[arg % len(ready)]
         if name == "start_time":
+            # any unscheduled operation, ready or not: the documented value is max(machine free, job free) right now
+            uns = m.unscheduled()
+            j, p = uns[arg % len(uns)]
             ms = m.machines(j, p)
             mm = ms[(arg // 7) % len(ms)]
             return self.call_query(name, self.op_of(j, p), mm), m.start(j, p, mm), (j, p, mm)
+        j, p = ready[arg % len(ready)]
         if name == "earliest_start_time":
             return self.call_query(name, self.op_of(j, p)), m.est1(j, p), (j, p)
         return None
